@@ -3,7 +3,7 @@ import TracklibVerif.Lemmas.Graph
 a truncated run is a prefix of the full run, labels of popped nodes are final, pops come in
 non-decreasing label order. -/
 namespace TV.Graph
-variable {W : Type} [AddCommMonoid W] [LinearOrder W] [IsOrderedAddMonoid W]
+variable {W : Type} [LinearOrder W] [Add W] [Zero W] [WalkAdd W]
 
 theorem step_eq (net : Net W) (st : St W) :
     step net st = (popMinAux st net.n).map (fun p => settle net st p.1 p.2) := by
@@ -130,7 +130,7 @@ theorem settle_LB (net : Net W) (hnet : WFNet net) (st : St W) (b : W) (hLB : LB
       have : e ∈ net.edges := by
         simp only [nextEdges, List.mem_filter] at he; exact he.1
       exact (hnet e this).2.2
-    exact le_trans (hLB u du huv hud) (le_add_of_nonneg_right hw)
+    exact le_trans (hLB u du huv hud) (WalkAdd.le_add_right _ _ hw)
 
 theorem run_LB (net : Net W) (hnet : WFNet net) (b : W) (f : Nat) (st : St W)
     (hLB : LB st b) (v : Nat) (y : W) (hv : st.vis v = false) (hd : (run net f st).d v = some y) : b ≤ y := by
